@@ -716,10 +716,16 @@ class IntervalTier(textgrid_tier.TextgridTier):
         cumulativeAdjustAmount = 0
         newEntryList = []
         allIntervals = [self.entries, targetTier.entries]
+        lastSourceEnd = None
         for sourceInterval, targetInterval in utils.safeZip(allIntervals, True):
             # sourceInterval.start - lastFromEnd -> was this interval and the
             # last one adjacent?
             newStart = sourceInterval.start + cumulativeAdjustAmount
+            if lastSourceEnd is not None and sourceInterval.start == lastSourceEnd:
+                # Adjacent intervals stay adjacent (the sum above can be off by
+                # a rounding error, which would make them overlap)
+                newStart = newEntryList[-1].end
+            lastSourceEnd = sourceInterval.end
 
             currIntervalDuration = sourceInterval.end - sourceInterval.start
             if filterFunc is None or filterFunc(sourceInterval.label):
